@@ -5,13 +5,16 @@
 (* Part "divmod": cython.cdiv / cython.cmod.  Reference = C semantics (truncating  *)
 (*   quotient, remainder with the dividend's sign; for floating operands plain     *)
 (*   division and fmod), validated declaratively (RefSound).  Impl-shaped: a       *)
-(*   transcription of Shadow.cdiv / Shadow.cmod (Python floor division).  One      *)
-(*   state per (kind, op, a) carrying the row of demands over all b.               *)
+(*   transcription of Shadow.cdiv / Shadow.cmod (Python floor division for ints,   *)
+(*   true division when an operand is a float).  One state per (kind, op, a)       *)
+(*   carrying the row of demands over all b; TLC proves that the transcription     *)
+(*   agrees with the reference on every demanded cell.                             *)
 (* Part "cast": cython.cast(T, v) for C integer / double / bint targets and typed  *)
 (*   or object sources, and cast(T, obj, typecheck=..) for Python types.           *)
 (*   Reference = C conversion (identity in range, truncation double -> int,        *)
 (*   v != 0 for bint, exact widening to double; <T?> raises TypeError);            *)
-(*   impl-shaped: transcription of Shadow.cast / typedef.__call__.                 *)
+(*   impl-shaped: transcription of Shadow.cast / typedef.__call__; TLC proves that *)
+(*   it agrees with the reference on every demanded cell.                          *)
 (*   A cast whose value leaves the range of T is outside the property (no demand). *)
 (* Part "prog": a small typed language (PyCore with range side-conditions) run as  *)
 (*   a small-step machine: programs come from the harness (IOEnv.C38_PROGS), the   *)
@@ -51,7 +54,7 @@ IsFloorPair(q, r, a, b) == /\ a - r = q * b /\ Abs(r) < Abs(b) /\ (r = 0 \/ (r <
 (* Shadow.py, transcribed.  Python ints are unbounded; `(a * b) < 0` only uses the sign. *)
 ProdNeg(a, b) == (a < 0 /\ b > 0) \/ (a > 0 /\ b < 0)
 
-ShCdiv(a, b) ==          \* def cdiv(a, b): if a < 0: a = -a; b = -b / if b < 0: return (a + b + 1) // b / return a // b
+ShCdiv(a, b) ==          \* def cdiv(a, b): [no float operand] if a < 0: a = -a; b = -b / if b < 0: return (a + b + 1) // b / return a // b
   LET a1 == IF a < 0 THEN -a ELSE a
       b1 == IF a < 0 THEN -b ELSE b
   IN IF b1 < 0 THEN FloorDiv(a1 + b1 + 1, b1) ELSE FloorDiv(a1, b1)
@@ -59,12 +62,10 @@ ShCdiv(a, b) ==          \* def cdiv(a, b): if a < 0: a = -a; b = -b / if b < 0:
 ShCmod(a, b) ==          \* r = a % b ; if (a * b) < 0 and r: r -= b
   LET r == PyMod(a, b) IN IF ProdNeg(a, b) /\ r # 0 THEN r - b ELSE r
 
-\* the same functions on floats (quarters): `//` on floats is floor division with a float result
-ShCdivQ(a, b) ==
-  LET a1 == IF a < 0 THEN -a ELSE a
-      b1 == IF a < 0 THEN -b ELSE b
-  IN IF b1 < 0 THEN 4 * FloorDiv(a1 + b1 + 4, b1) ELSE 4 * FloorDiv(a1, b1)
-ShCmodQ(a, b) == ShCmod(a, b)
+\* the same functions on floats (quarters).  cdiv: `if isinstance(a, float) or isinstance(b, float): return a / b` --
+\* Python's true division, the exact quotient: the quarter count q with q * b = 4 * a (only evaluated where one exists)
+ShCdivQ(a, b) == CHOOSE q \in -(4 * Abs(a))..(4 * Abs(a)) : q * b = 4 * a
+ShCmodQ(a, b) == ShCmod(a, b)       \* cmod has no float branch: `%` on floats, then the same sign correction
 
 \* C semantics on doubles: a / b and fmod(a, b); the quotient is decided only when it is a quarter multiple
 QuotDecided(a, b) == (4 * a) % Abs(b) = 0
@@ -99,14 +100,16 @@ CastDemand(T, sk, v) ==
                          ELSE IF InRange(T, v) THEN Val("i", v) ELSE NoDemand("cast-range"))
     [] Kind(T) = "d" -> (IF sk = "d" THEN Val("d", v) ELSE IF Abs(v) <= QCap \div 4 THEN Val("d", 4 * v) ELSE NoDemand("beyond-tlc"))
     [] Kind(T) = "b" -> Val("b", B2I(v # 0))
-\* Shadow.cast(t, v) with t = typedef(py_int | py_float | bool): `isinstance(v, basetype)` -> v unchanged, else basetype(v)
+\* Shadow.cast(t, v) with t = typedef(py_int | py_float | bool): `isinstance(v, basetype)` -> v unchanged, else basetype(v);
+\* for basetype int additionally `type(v) is not int` (a bool) -> int(v)
 CastShadow(T, sk, v) ==
-  CASE Kind(T) = "i" -> (IF sk = "d" THEN Val("i", TruncDiv(v, 4)) ELSE Val(sk, v))          \* a bool IS an int: stays a bool
+  CASE Kind(T) = "i" -> (IF sk = "d" THEN Val("i", TruncDiv(v, 4)) ELSE IF sk = "b" THEN Val("i", v) ELSE Val(sk, v))
     [] Kind(T) = "d" -> (IF sk = "d" THEN Val("d", v) ELSE Val("d", 4 * v))
     [] Kind(T) = "b" -> (IF sk = "b" THEN Val("b", v) ELSE Val("b", B2I(v # 0)))
 \* cast(T, obj[, typecheck=True]) for Python types; vk = type of the object; result = the type of the returned object
 PyCastDemand(T, vk, tc) == IF T = "object" \/ T = vk THEN Val("o", 0) ELSE IF tc THEN Raises("TypeError") ELSE NoDemand("unsafe-cast")
-PyCastShadow(T, vk, tc) == IF T = "object" \/ T = vk THEN Val("o", 0) ELSE Val("conv", 0)   \* `return t(*args)`: a converted copy
+\* Shadow: `if typecheck: if not isinstance(v, t): raise TypeError / return v` ; else isinstance -> v, otherwise `return t(*args)`: a converted copy
+PyCastShadow(T, vk, tc) == IF T = "object" \/ T = vk THEN Val("o", 0) ELSE IF tc THEN Raises("TypeError") ELSE Val("conv", 0)
 
 -----------------------------------------------------------------------------
 (* prog: expressions *)
@@ -156,32 +159,15 @@ CDivMod(op, l, r) ==
         ELSE IF Q(r) = 0 THEN Pr("c-div-zero")
         ELSE IF op = "cmod" THEN Res("double", FALSE, TruncRem(Q(l), Q(r)))
         ELSE IF ~QuotDecided(Q(l), Q(r)) THEN Pr("nondyadic")
-        ELSE WithFl(Res("double", FALSE, QuotQ(Q(l), Q(r))),
-                    IF ShCdivQ(Q(l), Q(r)) # QuotQ(Q(l), Q(r)) THEN {"cdiv_double_dev"} ELSE {}))   \* where Shadow.cdiv deviates (known)
+        ELSE Res("double", FALSE, QuotQ(Q(l), Q(r))))
   ELSE IF r.v = 0 THEN Pr("c-div-zero")          \* (and MIN / -1, MIN % -1: "c-div-overflow"; MIN is outside the TLC domain)
   ELSE Res(Arith(l.t, r.t), FALSE, IF op = "cdiv" THEN TruncDiv(l.v, r.v) ELSE TruncRem(l.v, r.v))
 
 CastE(T, r) ==
   LET d == CastDemand(T, r.k, r.v)
-  IN IF d.st = "nodemand" THEN Pr(d.why)
-     ELSE WithFl(Ok(T, d.v), IF Kind(T) = "i" /\ r.k = "b" THEN {"cast_int_from_bool"} ELSE {})   \* where Shadow.cast keeps the bool (known)
+  IN IF d.st = "nodemand" THEN Pr(d.why) ELSE Ok(T, d.v)
 
 Truth(r) == r.v # 0
-
-\* a constant integer expression (folded by the compiler into one literal node)
-RECURSIVE IsConst(_)
-IsConst(e) == \/ e[1] = "c"
-              \/ (e[1] = "neg" /\ IsConst(e[2]))
-              \/ (e[1] = "bin" /\ e[2] # "/" /\ IsConst(e[3]) /\ IsConst(e[4]))
-
-\* any constant expression (the compiler knows its value ... or believes it does)
-RECURSIVE IsConstX(_)
-IsConstX(e) == \/ e[1] \in {"c", "cd"}
-               \/ (e[1] \in {"neg", "not"} /\ IsConstX(e[2]))
-               \/ (e[1] \in {"bin", "cmp"} /\ IsConstX(e[3]) /\ IsConstX(e[4]))
-               \/ (e[1] = "cast" /\ IsConstX(e[3]))
-\* a zero divisor written as a cast of a constant: the compiler omits the zero test (known)
-ZeroCastDivisor(e, r) == e[1] = "bin" /\ e[2] \in {"/", "//", "%"} /\ e[4][1] = "cast" /\ IsConstX(e[4][3]) /\ r.v = 0
 
 \* the helper function of a program: params p, q ; body one expression ; typed return
 RECURSIVE Eval(_, _, _)
@@ -204,10 +190,10 @@ Eval(pr, env, e) ==
                                      THEN (IF QBig(l) \/ QBig(r) THEN Pr("beyond-tlc") ELSE Ok("bint", B2I(Cmp(e[2], Q(l), Q(r)))))
                                      ELSE Ok("bint", B2I(Cmp(e[2], l.v, r.v))))
                   [] OTHER -> CDivMod(tag, l, r),
-                l.fl \cup r.fl \cup (IF ZeroCastDivisor(e, r) THEN {"zero_divisor_cast_of_const"} ELSE {}))
+                l.fl \cup r.fl)
     [] tag = "cast" -> LET r == Eval(pr, env, e[3]) IN
                        IF r.st # "ok" THEN r
-                       ELSE WithFl(CastE(e[2], r), r.fl \cup (IF e[2] = "bint" /\ r.k = "i" /\ IsConst(e[3]) THEN {"bint_cast_of_int_const"} ELSE {}))
+                       ELSE WithFl(CastE(e[2], r), r.fl)
     [] tag = "call" ->       \* h(e1, e2): arguments converted to the parameter types, result to the declared return type
          LET h == pr.helper
              l == Eval(pr, env, e[2]) IN
@@ -305,10 +291,8 @@ RefSound == DMDone /\ c.kind = "i" /\ c.op = "cdiv" =>
                                           /\ (MulOv(FloorDiv(c.a, b), b) \/ IsFloorPair(FloorDiv(c.a, b), PyMod(c.a, b), c.a, b))
 \* Shadow.cdiv / Shadow.cmod equal C semantics on every integer pair ...
 ShadowIntAgrees == DMDone /\ c.kind = "i" => DMDevs = {}
-\* ... and on floats cmod is fmod, while cdiv deviates at least wherever the quotient is not integral (it applies the
-\* integer ceil-division trick `(a + b + 1) // b` to floats: known deviation; the cells are published as `devs`)
-ShadowDblCharacterised == DMDone /\ c.kind = "d" =>
-              IF c.op = "cmod" THEN DMDevs = {} ELSE \A b \in DOMAIN m.row : m.row[b] % 4 # 0 => b \in DMDevs
+\* ... and on floats: cmod is fmod, cdiv is the C quotient (no deviation class is left; `devs` is published and must be empty)
+ShadowDblAgrees == DMDone /\ c.kind = "d" => DMDevs = {}
 PublishDM == (Dump /\ DMDone) => PrintT("@@" \o ToJson([kind |-> c.kind, op |-> c.op, a |-> c.a, row |-> m.row, devs |-> DMDevs,
                                                                     sh |-> IF c.kind = "d" THEN [b \in DOMAIN m.row |-> DMShadow(c.kind, c.op, c.a, b)] ELSE <<>>]))
 
@@ -321,9 +305,8 @@ InitCast == \/ /\ c \in {[T |-> T, src |-> s, v |-> v, tc |-> FALSE] : T \in CTy
             \/ /\ c \in {[T |-> T, src |-> [form |-> "py", t |-> vk], v |-> 0, tc |-> tc] : T \in PyTypes, vk \in PyTypes \ {"object"}, tc \in BOOLEAN}
                /\ m = PyCastDemand(c.T, c.src.t, c.tc)
 CastSh == IF c.T \in PyTypes THEN PyCastShadow(c.T, c.src.t, c.tc) ELSE CastShadow(c.T, Kind(c.src.t), c.v)
-\* deviations of Shadow.cast from the C semantics, characterised: bool source into an integer type ; ignored typecheck
-CastCharacterised == Part = "cast" /\ m.st # "nodemand" =>
-    ((CastSh # m) <=> IF c.T \in PyTypes THEN m.st = "exc" ELSE (Kind(c.T) = "i" /\ Kind(c.src.t) = "b"))
+\* Shadow.cast equals the C semantics on every demanded cell (no deviation class is left)
+CastAgrees == Part = "cast" /\ m.st # "nodemand" => CastSh = m
 \* in range, an integer cast is the identity (Wrap(T, v) = v)
 CastIdentityInRange == Part = "cast" /\ c.T \in IntTypes /\ Kind(c.src.t) = "i" /\ InRange(c.T, c.v) => m = Val("i", c.v)
 PublishCast == (Dump /\ Part = "cast") => PrintT("@@" \o ToJson([T |-> c.T, form |-> c.src.form, st |-> c.src.t, v |-> c.v, tc |-> c.tc,
@@ -414,6 +397,8 @@ OutcomeWellFormed == Part = "prog" /\ m.out # NoOut =>
 TypedVarsInRange == Part = "prog" =>
      \A n \in {"a", "b", "x", "y", "i"} : m.env[n].k # "u" => (m.env[n].k = Kind(P.types[n]) /\ InRange(P.types[n], m.env[n].v))
 Terminates == Part = "prog" => m.steps <= 400
+\* `fl` (model flags) carries spec-side hazard classes for known-finding matchers; no hazard class is modelled at present
+NoHazardClass == Part = "prog" => m.fl = {}
 PublishProg == (Dump /\ Part = "prog" /\ m.out # NoOut) =>
      PrintT("@@" \o ToJson([pid |-> P.pid, a |-> c.a, b |-> c.b, out |-> m.out, fl |-> m.fl, steps |-> m.steps]))
 =============================================================================
